@@ -185,7 +185,7 @@ func parseSize(sizeStr string) int64 {
 // Slashes are checked and added to path if necessary. Duplicates are ignored.
 func addPathLimit(pathLimit []httpserver.PathLimit, path string, limit int64) []httpserver.PathLimit {
 	// Enforces preceding slash
-	if path[0] != '/' {
+	if !strings.HasPrefix(path, "/") {
 		path = "/" + path
 	}
 
